@@ -20,7 +20,7 @@ func defaultOpts() Options {
 
 // Boundary ends a step: quiescence, snapshot, next step number.
 func (w *World) Boundary() *Snap {
-	w.Sc.Settle()
+	w.Quiesce()
 	// canonical log of what the upstreams saw in this step (sorted: the order
 	// of same-instant arrivals is not owned by the tape)
 	w.mu.Lock()
@@ -108,7 +108,7 @@ func RunC03(r *sim.Run) {
 		return
 	}
 	w.Boundary()
-	w.Sc.Advance(50 * time.Millisecond) // first probes
+	w.Advance(50 * time.Millisecond) // first probes
 	w.Boundary()
 
 	nReq := 0
@@ -148,7 +148,7 @@ func RunC03(r *sim.Run) {
 				r.Fault([]string{"", "conn_reset_before_response", "body_truncate", "upstream_5xx"}[out])
 			}
 			r.Logf("release %s -> %d", p.Key, out)
-			w.Sc.Release(p, out)
+			w.Release(p, out)
 		case 2: // spec update
 			specChanges++
 			s := srv[t.Draw(len(srv))]
@@ -199,7 +199,7 @@ func RunC03(r *sim.Run) {
 			r.Logf("stub %s health=%q dial=%q", st.Addr, st.Health, st.DialMode)
 		case 4: // time passes
 			d := []time.Duration{200 * time.Millisecond, time.Second, 2500 * time.Millisecond, 5 * time.Second, 6 * time.Second, 11 * time.Second}[t.Draw(6)]
-			adv := w.Sc.Advance(d)
+			adv := w.Advance(d)
 			r.Logf("advance %v", adv)
 		}
 		w.Boundary()
@@ -213,10 +213,10 @@ func RunC03(r *sim.Run) {
 		if len(pts) == 0 {
 			break
 		}
-		w.Sc.Release(pts[0], UpRespond)
+		w.Release(pts[0], UpRespond)
 		w.Boundary()
 	}
-	w.Sc.Advance(3 * time.Second)
+	w.Advance(3 * time.Second)
 	w.Boundary()
 	r.SimSecs = w.Now().Seconds()
 
